@@ -40,8 +40,27 @@ def parseClient? (t : String) : Option Client :=
     | _, _, _ => none
   | _ => none
 
-def parseSucc? (t : String) : Option (Option Int) :=
-  if t = "x" then some none else t.toInt?.map some
+/-- outcome token of a participant: `x` every attempt refused, `<off>` every attempt answered,
+    `<off>:<pattern>` attempt k answered iff pattern[k] = '1' (last character repeats). The model's
+    input is whether the goroutine's attempt loop (Multipath.attemptLoop) ends without an error. -/
+def parseSuccFor? (interleavedMode : Bool) (t : String) : Option (Option Int) :=
+  if t = "x" then some none else
+  match t.splitOn ":" with
+  | [v] => v.toInt?.map some
+  | [v, pat] =>
+    if pat.isEmpty ∨ pat.toList.any (fun ch => ch ≠ '0' ∧ ch ≠ '1') then none else
+    let n := if interleavedMode then 3 else 1
+    let outs := (List.range n).map fun k => (pat.toList.getD (min k (pat.length - 1)) '0') == '1'
+    v.toInt?.map fun off => if (ScionTime.Multipath.attemptLoop outs).1 then some off else none
+  | _ => none
+
+/-- the outcome tokens of a round, read against the clients' configured mode (number of attempts) -/
+def parseSuccs? (cs : Option (List ScionTime.Multipath.Client)) (succ : String) : Option (List (Option Int)) :=
+  match cs, parseList? succ with
+  | some cs, some toks =>
+    if toks.length ≠ cs.length then some [] else
+    (cs.zip toks).mapM fun (c, t) => parseSuccFor? c.mode t
+  | _, _ => none
 
 def fmtOptNats (l : List (Option Nat)) : String :=
   "[" ++ ",".intercalate (l.map fun | some n => toString n | none => "-") ++ "]"
@@ -74,7 +93,7 @@ def stepPure (toks : List String) : String :=
     match kv? rest "cs", kv? rest "ps", kv? rest "s", kv? rest "succ" with
     | some cs, some ps, some hs, some succ =>
       match (parseList? cs).bind (·.mapM parseClient?), parseList? ps, parseHex? hs,
-            (parseList? succ).bind (·.mapM parseSucc?) with
+            parseSuccs? ((parseList? cs).bind (·.mapM parseClient?)) succ with
       | some cs, some ps, some s, some succ =>
         if succ.length ≠ cs.length ∨ rest.length ≠ 4 then ("bad-op") else
         let ps := ps.map fpOfTok
@@ -121,7 +140,7 @@ def step (st : St) (toks : List String) : St × String :=
   | "pa.round" :: rest =>
     match kv? rest "cs", kv? rest "s", kv? rest "succ" with
     | some cs, some hs, some succ =>
-      match (parseList? cs).bind (·.mapM parseClient?), parseHex? hs, (parseList? succ).bind (·.mapM parseSucc?) with
+      match (parseList? cs).bind (·.mapM parseClient?), parseHex? hs, parseSuccs? ((parseList? cs).bind (·.mapM parseClient?)) succ with
       | some cs, some s, some succ =>
         if succ.length ≠ cs.length ∨ rest.length ≠ 3 then (st, "bad-op") else
         match st with
